@@ -53,9 +53,11 @@ package appencryption
 // ---- C10: decrypted system / intermediate key bytes are wiped on every exit after they exist ----
 
 //@ func (*envelopeEncryption).systemKeyFromEKR
-//@   facet C10, C02
+//@   facet C10, C02, C09
 //@   requires wfE(e) && ekr != nil
-//@   modifies ext_calls
+//@   modifies ext_calls, live
+//@   ensures [C09:only-the-returned-key-s-secret-is-new] forall s securememory.Secret :: live(s) && !old(live(s)) ==> err == nil && s == result.secret
+//@   ensures [C09:nothing-released] forall s securememory.Secret :: old(live(s)) ==> live(s)
 //@   ensures (err == nil) == (result != nil)
 //@   ensures err == nil ==> result.created == old(ekr.Created) && result.secret != nil
 //@   ensures [C10:kms-plaintext-wiped] forall i int :: 0 <= i && i < len(ret(DecryptKey, 1, 0)) ==> ret(DecryptKey, 1, 0)[i] == 0
@@ -64,7 +66,7 @@ package appencryption
 //@   facet C10, C02, C09
 //@   ensures [C09:references-balanced] forall k *cachedCryptoKey :: owed(k) == old(owed(k))
 //@   requires wfE(e) && sk != nil && ekr != nil
-//@   modifies ext_calls, ms, owed
+//@   modifies ext_calls, ms, owed, live
 //@   ensures msGrows(old(ms), ms)
 //@   ensures (err == nil) == (result != nil)
 //@   ensures err == nil ==> result.created == old(ekr.Created) && result.secret != nil
@@ -77,7 +79,7 @@ package appencryption
 //@ spec fn loaderExact(f ref) bool
 //@ funcspec keyLoader
 //@   names meta
-//@   modifies ms, ext_calls, owed
+//@   modifies ms, ext_calls, owed, live
 //@   ensures [C09:loader-releases-what-it-takes] forall k *cachedCryptoKey :: owed(k) == old(owed(k))
 //@   ensures msGrows(old(ms), ms)
 //@   ensures (err == nil) == (result != nil)
@@ -88,7 +90,7 @@ package appencryption
 //@ iface keyCacher.GetOrLoad
 //@   names id, loader
 //@   param loader keyLoader
-//@   modifies owed
+//@   modifies owed, live
 //@   ghost ensures err == nil ==> owed(result) == old(owed(result)) + 1
 //@   ghost ensures forall k *cachedCryptoKey :: k != result || err != nil ==> owed(k) == old(owed(k))
 //@   requires [C02,C14:loader-fits-id] loaderFor(loader, id.ID) && (id.Created != 0 ==> loaderExact(loader))
@@ -101,7 +103,7 @@ package appencryption
 //@ iface keyCacher.GetOrLoadLatest
 //@   names id, loader
 //@   param loader keyLoader
-//@   modifies owed
+//@   modifies owed, live
 //@   ghost ensures err == nil ==> owed(result) == old(owed(result)) + 1
 //@   ghost ensures forall k *cachedCryptoKey :: k != result || err != nil ==> owed(k) == old(owed(k))
 //@   requires [C02,C14:loader-fits-id] loaderFor(loader, id)
@@ -214,7 +216,7 @@ package appencryption
 //@   ensures [C09:references-balanced] forall k *cachedCryptoKey :: owed(k) == old(owed(k))
 //@   safety C07
 //@   requires wfE(e)
-//@   modifies ext_calls, ms, owed
+//@   modifies ext_calls, ms, owed, live
 //@   ensures [C02:ms-only-grows] msGrows(old(ms), ms)
 //@   ensures [C02:error-returns-nil] (err == nil) == (result != nil)
 //@   ensures [C02,C14:backed] err == nil ==> result.secret != nil && ms[meta.ID][result.created]
@@ -225,7 +227,9 @@ package appencryption
 //@   ensures [C09:references-balanced] forall k *cachedCryptoKey :: owed(k) == old(owed(k))
 //@   safety C07
 //@   requires wfE(e)
-//@   modifies ext_calls, ms, owed
+//@   modifies ext_calls, ms, owed, live
+//@   ensures [C09:only-the-returned-key-s-secret-is-new] forall s securememory.Secret :: live(s) && !old(live(s)) ==> err == nil && s == result.secret
+//@   ensures [C09:nothing-released] forall s securememory.Secret :: old(live(s)) ==> live(s)
 //@   ensures [C02:ms-only-grows] msGrows(old(ms), ms)
 //@   ensures [C02:error-returns-nil] (err == nil) == (result != nil)
 //@   ensures [C02,C14:backed] err == nil ==> result.secret != nil && ms[meta.ID][result.created]
@@ -276,7 +280,9 @@ package appencryption
 //@   facet C02, C14, C09
 //@   ensures [C09:references-balanced] forall k *cachedCryptoKey :: owed(k) == old(owed(k))
 //@   requires wfE(e)
-//@   modifies ext_calls, ms, owed
+//@   modifies ext_calls, ms, owed, live
+//@   ensures [C09:only-the-returned-key-s-secret-is-new] forall s securememory.Secret :: live(s) && !old(live(s)) ==> err == nil && s == result.secret
+//@   ensures [C09:nothing-released] forall s securememory.Secret :: old(live(s)) ==> live(s)
 //@   ensures [C02:ms-only-grows] msGrows(old(ms), ms)
 //@   ensures [C02:error-returns-nil] (err == nil) == (result != nil)
 //@   ensures [C02,C14:backed] err == nil ==> result.secret != nil && (id == sysid(e.partition) ==> ms[id][result.created])
@@ -292,7 +298,7 @@ package appencryption
 //@   facet C02, C14, C09
 //@   ensures [C09:references-balanced] forall k *cachedCryptoKey :: owed(k) == old(owed(k))
 //@   requires wfE(e)
-//@   modifies ext_calls, ms, owed
+//@   modifies ext_calls, ms, owed, live
 //@   ensures [C02:ms-only-grows] msGrows(old(ms), ms)
 //@   ensures [C02:error-returns-nil] (err == nil) == (result != nil)
 //@   ensures [C02,C14:backed] err == nil ==> result.secret != nil && ms[ikidOf(e.partition)][result.created]
@@ -301,7 +307,7 @@ package appencryption
 //@   facet C02, C14, C09
 //@   ensures [C09:references-balanced] forall k *cachedCryptoKey :: owed(k) == old(owed(k))
 //@   requires wfE(e)
-//@   modifies ext_calls, ms, owed
+//@   modifies ext_calls, ms, owed, live
 //@   ensures [C02:ms-only-grows] msGrows(old(ms), ms)
 //@   ensures [C02:error-returns-nil] (err == nil) == (result != nil)
 //@   ensures [C02,C14:backed] err == nil ==> result.secret != nil && (id == ikidOf(e.partition) ==> ms[id][result.created])
@@ -325,6 +331,7 @@ package appencryption
 //@   opt no-frame
 //@   requires wfE(e)
 //@   ensures [C09:references-balanced] forall k *cachedCryptoKey :: owed(k) == old(owed(k))
+//@   ensures [C09:drk-secret-released] ret(GenerateKey, 1, 1) == nil ==> !live(ret(GenerateKey, 1, 0).secret)
 //@   ensures [C02:error-returns-nil] (err == nil) == (result != nil)
 //@   ensures [C02,C14:record-well-formed] err == nil ==> result.Key != nil && result.Key.ParentKeyMeta != nil && result.Key.ParentKeyMeta.ID == ikidOf(e.partition)
 //@   ensures [C02,C14:record-names-persisted-ik] err == nil ==> ms[ikidOf(e.partition)][result.Key.ParentKeyMeta.Created]
@@ -467,7 +474,7 @@ package appencryption
 //@   facet C09, C08
 //@   safety C07
 //@   requires c != nil && c.refs != nil && c.CryptoKey != nil
-//@   modifies owed(c)
+//@   modifies owed(c), live(c.CryptoKey.secret)
 //@   ghost ensures owed(c) == old(owed(c)) - 1
 
 //@ func newCachedCryptoKey
@@ -475,3 +482,5 @@ package appencryption
 //@   ensures result != nil && fresh(result) && result.CryptoKey == k && result.refs != nil
 //@   ghost ensures owed(result) == old(owed(result)) + 1
 //@   modifies owed(result)
+
+// ---- C09: the data row key's secret is released before EncryptPayload returns (every exit) ----
